@@ -10,8 +10,9 @@ META = {
                    'that add_edge/rasterize (and their callees) dirty — on the main path all of them with their Rasterizer::new values, on '
                    'the bounds_bottom < bounds_top early-out at least the arena — and clears edge_starts over exactly the range rasterize '
                    'scans; R10.3 every insertion into edge_starts is preceded by the four bounds updates; R10.4 apply_path resets the path '
-                   'cursor (current_point, first_point) before the first op of every path, so no value survives from the previous call.',
-    'decides': ['R10.1 reset pairs with use', 'R10.2 reset covers what was dirtied', 'R10.3 bounds cover every insertion', 'R10.4 no stale scratch state on the DrawTarget'],
+                   'cursor (current_point, first_point) before the first op of every path, so no value survives from the previous call; R10.6 (rules/statecoh.py) '
+                   'the DrawTarget has no memory of its own: its fields are the audited nine, and any further field is shown not to carry information from one call to the next other than a coherent summary of visible state.',
+    'decides': ['R10.1 reset pairs with use', 'R10.2 reset covers what was dirtied', 'R10.3 bounds cover every insertion', 'R10.4 no stale scratch state on the DrawTarget', 'R10.6 a field added to the DrawTarget is scratch (emptied or written before it is read), a derived cache that passes the cache lemma (then dissolved, A13), a validated memo, or a summary written at every mutation site of the visible field it describes'],
     'does_not_decide': ['pixel equality of replays (needs determinism of the arithmetic)', 'arena pointer validity across reset (unsafe linked lists; Miri territory)'],
     'assumptions': ['typed_arena::Arena::new() drops all previous allocations (external)'],
     'trusted_base': ['typed-arena 2.0'],
